@@ -938,12 +938,53 @@ def oracle_history(rng, n, stats):
                 elif kind == 'filter':
                     fk = rng.choice(['size', 'prefix', 'position', 'suffix', 'overlap'])
                     f, d = gen_filter(rng, ts, fk, stats)
+                    twin = copy.deepcopy(f)          # the filter as constructed, never called (with its own tokenizer object)
                     out = f.filter_tables(L, R, lk, rk, la, ra, show_progress=False)
                     C, clk, crk = gen_candset(rng, L, R, lk, rk, stats)
                     snapC = snapshot(C)
-                    f.filter_candset(C, clk, crk, L, R, lk, rk, la, ra, show_progress=False)
+                    oc = f.filter_candset(C, clk, crk, L, R, lk, rk, la, ra, show_progress=False)
                     if snapshot(C) != snapC:
                         v.append(viol('C12', 'filter_candset modified the candidate set', {'entry': 'history', 'history': history + [fk]}))
+                    # the same calls in isolation: each on a fresh filter object and fresh tables
+                    hcase = {'entry': 'history', 'history': history + ['filter ' + fk], 'filter': d, 'ltable': frame_to_case(L), 'rtable': frame_to_case(R),
+                             'candset': frame_to_case(C), 'tokenizers': [tok_to_case(x) for x in toks]}
+                    fl, fr = case_to_frame(frame_to_case(L)), case_to_frame(frame_to_case(R))
+                    iso_c = copy.deepcopy(twin).filter_candset(case_to_frame(frame_to_case(C)), clk, crk, fl, fr, lk, rk, la, ra, show_progress=False)
+                    if rows_multiset(oc, drop=()) != rows_multiset(iso_c, drop=()):
+                        v.append(viol('C12', '%s filter_candset after filter_tables on the same filter object differs from the same call in isolation' % fk,
+                                      hcase, len(iso_c), len(oc)))
+                    lp, rp = present_rows(L, lk, la), present_rows(R, rk, ra)
+                    for _i in range(min(12, len(lp) * len(rp))):
+                        (_a, ls), (_b, rs) = rng.choice(lp), rng.choice(rp)
+                        if not isinstance(ls, str) or not isinstance(rs, str):
+                            continue
+                        got, iso = bool(f.filter_pair(ls, rs)), bool(copy.deepcopy(twin).filter_pair(ls, rs))
+                        if got != iso:
+                            v.append(viol('C12', '%s filter_pair after other calls on the same filter object differs from the same call in isolation' % fk,
+                                          dict(hcase, strings=[ls, rs]), iso, got))
+                            break
+                    changed = sorted(k for k in set(vars(f)) | set(vars(twin)) if k != 'tokenizer' and
+                                     (k not in vars(f) or k not in vars(twin) or repr(vars(f)[k]) != repr(vars(twin)[k])))
+                    if changed and not any(x['what'].startswith('%s filter_pair after' % fk) for x in v[-1:]):
+                        # the calls left something on the filter object (a parameter re-written, a cache): harmless unless a
+                        # later result depends on it — search a larger pool of pairs for one where it does
+                        pool = [x for x in gen_strings_for(rng, ts, 60) if isinstance(x, str)]
+                        for ls in pool:
+                            hit = False
+                            for rs in pool:
+                                got, iso = bool(f.filter_pair(ls, rs)), bool(copy.deepcopy(twin).filter_pair(ls, rs))
+                                if got != iso:
+                                    v.append(viol('C12', '%s filter_pair after other calls on the same filter object differs from the same call in isolation' % fk,
+                                                  dict(hcase, strings=[ls, rs], filter_attributes_changed=changed), iso, got))
+                                    hit = True
+                                    break
+                            if hit:
+                                break
+                        stats.hit('oracle.history.filter_object_changed')
+                    out2 = f.filter_tables(L, R, lk, rk, la, ra, show_progress=False)
+                    iso_t = copy.deepcopy(twin).filter_tables(fl, fr, lk, rk, la, ra, show_progress=False)
+                    if rows_multiset(out2) != rows_multiset(iso_t) or rows_multiset(out) != rows_multiset(iso_t):
+                        v.append(viol('C12', '%s filter_tables on a used filter object differs from the same call in isolation' % fk, hcase, len(iso_t), len(out2)))
                     desc = ('filter ' + fk,)
                 elif kind == 'matcher':
                     C, clk, crk = gen_candset(rng, L, R, lk, rk, stats)
@@ -969,6 +1010,83 @@ def oracle_history(rng, n, stats):
                 v.append(viol('C12', 'input table modified by %s' % (desc,), {'entry': 'history', 'history': history}))
                 break
         stats.hit('oracle.history.len', len(history))
+    return v
+
+
+def oracle_filter_objects(rng, n, stats):
+    """C12 for filter objects: a filter is constructed once and used for many calls (filter_tables, filter_candset,
+    filter_pair, on the same or on other tables).  Every call on the USED object is compared with the same call on a
+    copy of the object as it was constructed (its own tokenizer object, fresh tables): anything a call writes onto the
+    object — a parameter normalised in place, a cache valid for the first tables only — shows as a difference."""
+    v = []
+    for _ in range(n):
+        ts = gen_tokenizer(rng, qgram=True if rng.random() < 0.5 else None)
+        kind = rng.choice(['size', 'prefix', 'position', 'suffix', 'overlap'])
+        if kind != 'overlap' and ts.kind == 'qgram' and rng.random() < 0.5:
+            m, t = 'EDIT_DISTANCE', rng.choice([0.5, 1.5, 2.5, 2.7, 1, 2, 3.0])
+            f = FILTERS[kind](ts.obj, m, t, rng.random() < 0.6, rng.random() < 0.3)
+            d = {'kind': kind, 'measure': m, 'threshold': t, 'allow_empty': f.allow_empty, 'allow_missing': f.allow_missing}
+        else:
+            f, d = gen_filter(rng, ts, kind, stats)
+        m = d.get('measure', 'OVERLAP')
+        ts.obj.set_return_set(m != 'EDIT_DISTANCE')
+        twin = copy.deepcopy(f)
+        calls = []
+        hist = []
+        for step in range(rng.randint(2, 4)):
+            L, R, lk, rk, la, ra = gen_join_frames(rng, ts, stats, nonstring=False)
+            hcase = {'entry': 'filter-object-history', 'kind': kind, 'filter': d, 'tokenizer': tok_to_case(ts), 'earlier_calls': list(hist),
+                     'ltable': frame_to_case(L), 'rtable': frame_to_case(R), 'l_key': lk, 'r_key': rk, 'l_attr': la, 'r_attr': ra}
+            op = rng.choice(['tables', 'tables', 'candset', 'pairs'])
+            try:
+                if op == 'tables':
+                    nj = rng.choice([1, 1, 2])
+                    got = f.filter_tables(L, R, lk, rk, la, ra, n_jobs=nj, show_progress=False)
+                    iso = copy.deepcopy(twin).filter_tables(case_to_frame(frame_to_case(L)), case_to_frame(frame_to_case(R)), lk, rk, la, ra, n_jobs=nj, show_progress=False)
+                    differ = rows_multiset(got) != rows_multiset(iso)
+                elif op == 'candset':
+                    C, clk, crk = gen_candset(rng, L, R, lk, rk, stats)
+                    hcase['candset'] = frame_to_case(C)
+                    got = f.filter_candset(C, clk, crk, L, R, lk, rk, la, ra, show_progress=False)
+                    iso = copy.deepcopy(twin).filter_candset(case_to_frame(frame_to_case(C)), clk, crk, case_to_frame(frame_to_case(L)),
+                                                           case_to_frame(frame_to_case(R)), lk, rk, la, ra, show_progress=False)
+                    differ = rows_multiset(got, drop=()) != rows_multiset(iso, drop=())
+                else:
+                    differ = False
+                    for (_a, ls) in present_rows(L, lk, la):
+                        for (_b, rs) in present_rows(R, rk, ra):
+                            if bool(f.filter_pair(ls, rs)) != bool(copy.deepcopy(twin).filter_pair(ls, rs)):
+                                differ, hcase['strings'] = True, [ls, rs]
+                                break
+                        if differ:
+                            break
+            except Exception as e:   # noqa: BLE001
+                v.append(viol('C15', 'valid %s filter call (%s) in a history on one filter object raised %s: %s' % (kind, op, type(e).__name__, str(e)[:80]), hcase))
+                break
+            if differ:
+                v.append(viol('C12', '%s filter %s call on a used filter object differs from the same call on the filter as constructed' % (kind, op), hcase))
+                break
+            hist.append(op)
+            stats.hit('oracle.filter_objects.' + op)
+        else:
+            changed = sorted(k for k in set(vars(f)) | set(vars(twin)) if k != 'tokenizer' and
+                             (k not in vars(f) or k not in vars(twin) or repr(vars(f)[k]) != repr(vars(twin)[k])))
+            if changed:
+                # something was left on the object: harmless unless a later result depends on it — search for a pair where it does
+                stats.hit('oracle.filter_objects.attributes_changed')
+                pool = [x for x in gen_strings_for(rng, ts, 70) if isinstance(x, str)]
+                hit = None
+                for ls in pool:
+                    for rs in pool:
+                        if bool(f.filter_pair(ls, rs)) != bool(copy.deepcopy(twin).filter_pair(ls, rs)):
+                            hit = [ls, rs]
+                            break
+                    if hit:
+                        break
+                if hit:
+                    v.append(viol('C12', '%s filter_pair on a used filter object differs from the same call on the filter as constructed' % kind,
+                                  {'entry': 'filter-object-history', 'kind': kind, 'filter': d, 'tokenizer': tok_to_case(ts), 'earlier_calls': list(hist),
+                                   'strings': hit, 'filter_attributes_changed': changed}, None, None))
     return v
 
 
@@ -1083,7 +1201,11 @@ def oracle_validation(rng, n, stats):
         elif kind == 'bad_attr':
             la2, expect = 'noattr', AssertionError
         elif kind == 'bad_out':
-            kw2['r_out_attrs'], expect = ['nosuch'], AssertionError
+            # one unknown name, alone or next to names that exist, on either side, at any position
+            side, T = rng.choice([('l_out_attrs', L), ('r_out_attrs', R)])
+            lst = [rng.choice(list(T.columns)) for _ in range(rng.choice([0, 1, 1, 2]))] + ['nosuch']
+            rng.shuffle(lst)
+            kw2[side], expect = lst, AssertionError
         elif kind == 'numeric_attr':
             if len(L) == 0:
                 continue
